@@ -128,6 +128,10 @@ type ledgerFamilyOpts struct {
 
 func classifyLedgerVerdict(v ledgerVerdict) (key, what string) {
 	ev, _ := v.Event["ev"].(string)
+	if ev == "MisRecv" && strings.Contains(v.Run, "enforced=true") {
+		return "receive-by-non-addressee-in-the-enforced-regime",
+			fmt.Sprintf("with the addressee rule enforced a send was received by an account it was not addressed to (%s)", v.Run)
+	}
 	if ev == "MisRecv" {
 		return "receiver-mismatch-below-enforcement-height",
 			fmt.Sprintf("a send was received by an account it was not addressed to (%s): value created, send receivable again by its addressee", v.Run)
